@@ -622,7 +622,8 @@ Definition s3_validate_object_root (keys : list bytes) (cprefix root : bytes) : 
 
 (* ------------------------------------------------------------------ C15: purge_object with its guards *)
 
-(** util::trim_leading_slashes / trim_slashes, util.rs:75-82 *)
+(** util::trim_leading_slashes / trim_slashes, util.rs:75-82 (applied to an explicitly given object root only,
+    s3.rs:495; layout-mapped roots get [trim_trailing_slashes], s3.rs:492, 599) *)
 Fixpoint trim_leading_slashes (s : bytes) : bytes :=
   match s with
   | c :: r => if is_slash c then trim_leading_slashes r else s
@@ -645,15 +646,16 @@ Definition stored_inventory_id (inv_id : bytes -> option bytes) (bk : bucket) (c
             end
   end.
 
-(** S3OcflStore::purge_object, s3.rs:593-646 (/repo commit 900305c), from the looked-up root
+(** S3OcflStore::purge_object, s3.rs:593-646 (/repo commits 900305c, 2517003), from the looked-up root
     [mapped] on (layout mapping / cache / scan read only; NotFound returns Ok before):
-    the root is trimmed (s3.rs:599) and validated (s3.rs:605); a root that is an object
+    trailing slashes of the root are trimmed (s3.rs:599, /repo commit 2517003: a leading slash stays and
+    fails the validation) and it is validated (s3.rs:605); a root that is an object
     directory whose inventory names ANOTHER id is left alone (s3.rs:607-612); a root that is no
     object directory but has an object declaration somewhere below it is left alone
     (s3.rs:613-616); otherwise everything below the root is deleted *)
 Definition purge_object (inv_id : bytes -> option bytes) (fa : option N) (cprefix oid mapped : bytes) (s : st)
   : res unit * st :=
-  let root := trim_slashes mapped in
+  let root := trim_trailing_slashes mapped in
   let keys := bk_keys (st_b s) in
   match s3_validate_object_root keys cprefix root with
   | Ok _ =>
